@@ -111,8 +111,29 @@ def roles(p):
     def stores_data(fi):
         return any(isinstance(n, _ast.Attribute) and n.attr == "data" and isinstance(n.ctx, _ast.Store) and isinstance(n.value, _ast.Name) and n.value.id == "self" for n in _ast.walk(fi.node))
 
+    mod_private = {ci.name: ci for ci in p.classes.values() if ci.module is B.module and ci is not B and ci.name.startswith("_")}
+
+    def private_methods(fi, seen=None):
+        """Methods of the module's private classes that a buffer method mentions (collaborators its work is delegated to)."""
+        seen = seen if seen is not None else {}
+        for n in _ast.walk(fi.node):
+            if isinstance(n, _ast.Name) and n.id in mod_private and n.id not in seen:
+                ci = mod_private[n.id]
+                seen[n.id] = ci
+                for sub in [ci] + [s for s in mod_private.values() if ci in s.mro[1:]]:
+                    seen[sub.name] = sub
+                    for m in sub.methods.values():
+                        private_methods(m, seen)
+        return seen
+
     def trans(fi, pred):
-        return pred(fi) or any(pred(byname[c]) for c in closure(fi))
+        if pred(fi) or any(pred(byname[c]) for c in closure(fi)):
+            return True
+        for g in [fi] + [byname[c] for c in closure(fi)]:
+            for ci in private_methods(g).values():
+                if any(pred(m) for m in ci.methods.values()):
+                    return True
+        return False
 
     find = [fi for fi in cand if trans(fi, lambda f_: calls_attr(f_, "from_string") or calls_attr(f_, "from_xml"))]
     find = [fi for fi in find if not any(byname[c] in find for c in closure(fi))] or find
@@ -128,6 +149,7 @@ def roles(p):
     drop = [fi for fi in cand if fi is not resync[0] and fi is not find[0] and resync[0].name in own_calls(fi) and stores_data(fi)]
     r = {"FIND": find[0].name, "RESYNC": resync[0].name, "DROP1": drop[0].name if len(drop) == 1 else None}
     _ROLES[key] = r
+    parser_aliases(p)
     return r
 
 
@@ -153,6 +175,10 @@ def explore_process(ctx, inline=("FIND", "DROP1"), may_raise=False, max_while=2,
             return "ParseError"
         if isinstance(callee, Fn) and callee.fi.name in ("from_string", "from_xml") and callee.fi.module.name.startswith("indi.message"):
             return "Exception"
+        if isinstance(callee, Term) and callee.op == "attr" and callee.args[1] in ("from_string", "from_xml"):
+            recv = callee.args[0]
+            if isinstance(recv, Term) and recv.op == "attr" and recv.args[1] in _PARSER_ALIASES and show(recv.args[0]) == "self":
+                return "Exception"
         return None
 
     opts = {"inline": pol, "max_while": max_while, "keep_calls": keep}
@@ -339,8 +365,47 @@ def check_find_progress(ctx, rule):
         ctx.holds(rule, f.short, f"{nsteps} iteration steps: position = find('>', previous position) + 1 with the not-found case returned before", fi=f)
 
 
+_PARSER_ALIASES = set()  # attributes of a Buffer that its constructor binds to the message base class (an injected collaborator)
+
+
+def parser_aliases(p):
+    """Attributes through which a buffer reaches the message parser: found on a buffer built by the real constructor
+    (any attribute whose value is a message class)."""
+    key = ("aliases", id(p))
+    if key in _ROLES:
+        return _ROLES[key]
+    found = set()
+
+    def run(it: Interp):
+        o = constructed_buffer(it, p, "")
+        for k, v in o.attrs.items():
+            if isinstance(v, Cls) and v.ci.module.name.startswith("indi.message"):
+                found.add(k)
+        return Const(None)
+
+    try:
+        explore(p, run, {"inline": lambda fi, node: False})
+    except Undecided:
+        pass
+    _ROLES[key] = found
+    _PARSER_ALIASES.clear()
+    _PARSER_ALIASES.update(found)
+    return found
+
+
 def parsed_prefix(t):
-    """The text a message term was parsed from: IndiMessage.from_string(<text>) or IndiMessage.from_xml(ET.fromstring(<text>))."""
+    """The text a message term was parsed from: IndiMessage.from_string(<text>) or IndiMessage.from_xml(ET.fromstring(<text>))
+    (also through an attribute of the buffer that its constructor binds to the message class)."""
+    if isinstance(t, Term) and t.op == "call" and isinstance(t.args[0], Term) and t.args[0].op == "attr" and t.args[0].args[1] in ("from_string", "from_xml") and t.args[1]:
+        recv = t.args[0].args[0]
+        if isinstance(recv, Term) and recv.op == "attr" and recv.args[1] in _PARSER_ALIASES and show(recv.args[0]) == "self":
+            nm_ = t.args[0].args[1]
+            if nm_ == "from_string":
+                return t.args[1][0]
+            x = t.args[1][0]
+            if isinstance(x, Term) and x.op == "call" and isinstance(x.args[0], Foreign) and x.args[0].dotted.endswith("fromstring") and x.args[1]:
+                return x.args[1][0]
+            return None
     if not (isinstance(t, Term) and t.op == "call" and isinstance(t.args[0], Fn) and t.args[0].fi.module.name.startswith("indi.message") and t.args[1]):
         return None
     nm = t.args[0].fi.name
@@ -496,7 +561,7 @@ def check_consume(ctx, rule):
             # nothing modifies the buffer between the scan and the truncation
             findcall = [e for e in evs if e.kind == "call" and is_call(e.data["term"], method=roles(ctx.p)["FIND"])]
             if findcall:
-                between = [e for e in evs if findcall[0].idx < e.idx < consume[0].idx and ((e.kind == "store" and e.data.get("attr") in ("data", "buffer")) or (e.kind == "call" and not e.data.get("inlined") and any(is_call(e.data["term"], method=m) for m in (roles(ctx.p)["RESYNC"], "append", "write"))))]
+                between = [e for e in evs if findcall[0].idx < e.idx < consume[0].idx and ((e.kind == "store" and e.data.get("attr") in ("data", "buffer") and show(e.data["base"]) == "self") or (e.kind == "call" and not e.data.get("inlined") and any(is_call(e.data["term"], method=m) for m in (roles(ctx.p)["RESYNC"], "append", "write"))))]
                 if between:
                     ctx.violated(rule, f.short, "the buffer is modified between locating the message and removing it", fi=f, text="modified-between")
                     bad = True
